@@ -437,6 +437,8 @@ func CheckC07(e *fw.Env, l *Lab) {
 		}
 		e.Res.Sig("stub|answer=%d|recv%d|memo%d|%s", pkt.Sequence%4, ri, mi, ackClass(r2))
 	}
+	// 4. every other callback: handshake, close, acknowledgement, timeout, send, write-ack
+	checkC07Callbacks(e, l)
 	_ = spec.Spec{}
 }
 
